@@ -104,6 +104,14 @@ def impl(case):
                                 okw = False
                     v['store_ok'] = bool(okw)
                     v['store_n'] = int(len(ids))
+                    nck = stored.shape[1]
+                    rows_ok = True
+                    for i, sid in enumerate(ids):
+                        want = [int(c) for c in m.get_template(int(m.spike_templates[sid])).channel_ids[:nck]]
+                        want += [-1] * (nck - len(want))
+                        if [int(c) for c in stored[i]] != want:
+                            rows_ok = False
+                    v['store_rows_ok'] = bool(rows_ok)
                 views.append(v)
         if not closed:
             m.close()
@@ -117,7 +125,7 @@ def model_query(case, impl_res):
         if k == 'save_meta':
             ops.append(dict(k=k, field=o['field'], m=[[int(i), None if v is None else cell_of(v)] for i, v in o['m']]))
         elif k == 'write_file':
-            ops.append(dict(k=k, stem=o['stem'], file=parse_foreign(o['text'], o['ext'])))
+            ops.append(dict(k=k, stem=o['stem'], tsv=(o['ext'] == 'tsv'), file=parse_foreign(o['text'], o['ext'])))
         else:
             ops.append({kk: vv for kk, vv in o.items() if kk in ('k', 'sc')})
     sc0 = case['spec'].get('spike_clusters') or case['spec']['spike_templates']
@@ -160,15 +168,15 @@ def judge(case, impl_res, ans):
         for f, vals in m['abs_fields']:
             exp = {repr(int(cid)): _val(c) for cid, c in vals}
             if not exp:
-                if real_meta.get(f):
-                    return 'SPEC: reload %d: field %r should be empty, got %s' % (i, f, real_meta.get(f))
-                continue
+                continue      # an emptied field: nothing is claimed (a legacy CSV may show through)
             if real_meta.get(f) != exp:
                 return 'SPEC: reload %d: metadata field %r is %s, last saved mapping %s' % (i, f, real_meta.get(f), exp)
         if v['templates'] != spec['spike_templates'] or v['samples'] != spec['spike_samples']:
             return 'SPEC: reload %d: spike templates / times changed' % i
         if v.get('store_ok') is False:
             return 'SPEC: reload %d: subset-store waveforms differ from the raw data' % i
+        if v.get('store_rows_ok') is False:
+            return 'SPEC: reload %d: the subset store does not hold the best channels of each spike\'s template' % i
         # correspondence with the disk model (foreign files included)
         mm = {f: {repr(_cid(c)): _val(val) for c, val in rows} for f, rows in m['view']['metadata']}
         if real_meta != mm:
@@ -240,7 +248,7 @@ def rand_history(rng, spec, L):
                 m.append([i, v])
             ops.append(dict(k=k, field=rng.pick(FIELDS), m=m))
         elif k == 'write_file':
-            kind = rng.pick(['valid', 'empty', 'ragged', 'quote', 'no_cluster_id', 'cluster_info'])
+            kind = rng.pick(['valid', 'empty', 'ragged', 'quote', 'no_cluster_id', 'cluster_info', 'legacy_csv', 'legacy_csv'])
             ext = rng.pick(['tsv', 'csv'])
             dl = '\t' if ext == 'tsv' else ','
             ff = rng.pick(foreign_fields)
@@ -253,6 +261,12 @@ def rand_history(rng, spec, L):
                 text = dl.join(['cluster_id', ff, ff + '2']) + '\n' + '1%s5\n' % dl + '2%s6%s7%s8\n' % (dl, dl, dl) + '3\n'
             elif kind == 'quote':
                 text = dl.join(['cluster_id', ff]) + '\n' + '1%s"unterminated\n2%sx\n' % (dl, dl)
+            elif kind == 'legacy_csv':
+                # an old-style CSV carrying a field that save_metadata also writes: the saved TSV must win
+                ext, dl = 'csv', ','
+                ff = rng.pick(FIELDS)
+                stem = rng.pick(['cluster_%ss' % ff, 'zz_legacy_' + ff, 'cluster_' + ff])
+                text = dl.join(['cluster_id', ff]) + '\n' + ''.join('%d%sLEGACY%d\n' % (i, dl, i) for i in rng.sample(range(9), 3))
             elif kind == 'no_cluster_id':
                 text = dl.join(['id', ff]) + '\n' + '1%s5\n' % dl
             else:
@@ -270,6 +284,8 @@ def rand_history(rng, spec, L):
     # a foreign stem must keep one extension (otherwise two files with the same stem)
     seen = {}
     for o in ops:
+        if o['k'] == 'write_file' and o['kind'] == 'legacy_csv':
+            continue
         if o['k'] == 'write_file':
             o['ext'] = seen.setdefault(o['stem'], o['ext'])
             if o['kind'] != 'empty':
